@@ -226,6 +226,18 @@ pub struct RawNet {
     pub chains: Vec<RawChain>,
     /// authoritative servers also add the records for in-server CNAME targets (RFC 1034 §4.3.2 step 3a)
     pub chase: bool,
+    /// an alias *tree*: `f.<zone>` owns `k` CNAME records (which a hostile or sloppy zone can
+    /// publish), each target again `k`, `depth` levels deep, leaves own an address. A chain or a
+    /// loop visits at most as many names as it has; a tree has k^depth.
+    #[serde(default)]
+    pub fan: Option<RawFan>,
+}
+
+#[derive(Clone, Copy, Debug, Serialize, Deserialize)]
+pub struct RawFan {
+    pub zone: u8,
+    pub k: u8,
+    pub depth: u8,
 }
 
 // ---------------------------------------------------------------------------------------------
@@ -301,6 +313,8 @@ pub struct World {
     pub flags: Flags,
     /// owner names of each generated CNAME chain, head first
     pub chains: Vec<Vec<Dn>>,
+    /// root of the alias tree, if the world has one
+    pub fan_root: Option<Dn>,
     /// every record honest data contains (zone contents, delegation NS sets, glue): the only
     /// records a resolution may legitimately hand out
     pub truth: BTreeSet<Rr>,
@@ -505,6 +519,29 @@ pub fn build_world(raw: &RawNet) -> World {
         }
         chains_out.push(names.into_iter().map(|n| n.1).collect());
     }
+    // alias tree overlay
+    let mut fan_root = None;
+    if let Some(f) = raw.fan {
+        let zi = if zones.len() > 1 { 1 + f.zone as usize % (zones.len() - 1) } else { 0 };
+        let (k, d) = (f.k.clamp(2, 3) as usize, f.depth.clamp(2, 5) as usize);
+        let zname = zones[zi].name.clone();
+        let mut level: Vec<String> = vec!["f".to_string()];
+        for depth_now in 0..=d {
+            let mut next = Vec::new();
+            for label in &level {
+                let owner = child(label, &zname);
+                if depth_now == d {
+                    zones[zi].data.insert(owner, vec![Rd::A(data_ip(zi, 9))]);
+                } else {
+                    let kids: Vec<String> = (0..k).map(|i| format!("{label}{i}")).collect();
+                    zones[zi].data.insert(owner, kids.iter().map(|c| Rd::Cname(child(c, &zname))).collect());
+                    next.extend(kids);
+                }
+            }
+            level = next;
+        }
+        fan_root = Some(child("f", &zname));
+    }
     // addresses of NS hosts live in the zone that encloses the host name
     for (host, ips) in &host_addrs {
         let mut best = 0;
@@ -569,6 +606,7 @@ pub fn build_world(raw: &RawNet) -> World {
         spare_ns_address_answers: false,
         flags,
         chains: chains_out,
+        fan_root,
         truth,
         injected: BTreeSet::new(),
     };
@@ -887,6 +925,13 @@ fn honest_answer(w: &World, s: usize, qname: &str, qt: Qt) -> Resp {
         resp.aa = true;
         match z.data.get(&cur_name) {
             // step 3a: CNAME and the query is not for CNAME: copy it, restart at the target
+            // several CNAME records at one owner (the alias tree): all of them, nothing chased
+            Some(rds) if rds.len() > 1 && matches!(rds.first(), Some(Rd::Cname(_))) && qt != Qt::Cname => {
+                for rd in rds {
+                    resp.answers.push(rr(&cur_name, rd.clone()));
+                }
+                return resp;
+            }
             Some(rds) if matches!(rds.first(), Some(Rd::Cname(_))) && qt != Qt::Cname => {
                 let Rd::Cname(t) = rds[0].clone() else { unreachable!() };
                 resp.answers.push(rr(&cur_name, rds[0].clone()));
